@@ -37,22 +37,22 @@ REPLAY_GROUPS = {
 }
 
 PROPS = {
-    "C01": dict(units=["u4_policy", "u19_async_policy", "u8_builder", "u8_builder_async"], kani=[], replay=["policy", "cache", "async_cache"]),
-    "C07": dict(units=["u4_policy", "u1_estimator", "u19_async_policy", "u8_builder", "u8_builder_async"], kani=[], replay=["policy", "estimator", "cache", "async_cache"]),
+    "C01": dict(units=["u4_policy", "u19_async_policy", "u8_builder", "u8_builder_async", "u6_store", "u7_glue", "u19_async"], kani=[], replay=["policy", "cache", "async_cache"]),
+    "C07": dict(units=["u4_policy", "u1_estimator", "u19_async_policy", "u8_builder", "u8_builder_async", "u6_store", "u7_glue", "u19_async"], kani=[], replay=["policy", "estimator", "cache", "async_cache"]),
     "C13": dict(units=["u1_estimator", "u8_builder", "u8_builder_async"], kani=["bbloom"], replay=["estimator", "cache"]),
     "C14": dict(units=["u1_estimator"], kani=["bbloom"], replay=["estimator"]),
     "C20": dict(units=["u1_estimator", "u8_builder", "u7_glue", "u19_async", "u8_builder_async"], kani=["bbloom"], replay=["estimator", "cache", "async_cache"]),
-    "C02": dict(units=["u6_store", "u7_glue", "u19_async", "u8_builder", "u8_builder_async"], kani=[], replay=["ttl", "async_sweep", "cache", "async_cache"]),
+    "C02": dict(units=["u6_store", "u7_glue", "u19_async", "u8_builder", "u8_builder_async"], kani=["keys"], replay=["ttl", "async_sweep", "cache", "async_cache"]),
     "C03": dict(units=["u6_store", "u7_glue", "u19_async"], kani=["ttl"], replay=["ttl", "async_sweep"]),
-    "C04": dict(units=["u6_store", "u4_policy", "u7_glue", "u19_async", "u19_async_policy", "u8_builder", "u8_builder_async"], kani=["ttl"], replay=["ttl", "async_sweep", "policy", "cache", "async_cache"]),
+    "C04": dict(units=["u6_store", "u4_policy", "u7_glue", "u19_async", "u19_async_policy", "u8_builder", "u8_builder_async"], kani=["ttl", "keys"], replay=["ttl", "async_sweep", "policy", "cache", "async_cache"]),
     "C05": dict(units=["u6_store", "u4_policy", "u8_builder", "u19_async_policy", "u8_builder_async"], kani=["ttl"], replay=["ttl", "async_sweep", "cache"]),
-    "C09": dict(units=["u6_store", "u7_glue", "u19_async", "u8_builder", "u8_builder_async"], kani=[], replay=["ttl", "async_sweep", "cache", "async_cache"]),
+    "C09": dict(units=["u6_store", "u7_glue", "u19_async", "u8_builder", "u8_builder_async"], kani=["keys"], replay=["ttl", "async_sweep", "cache", "async_cache"]),
     "C18": dict(units=["u6_store", "u7_glue", "u19_async", "u8_builder", "u8_builder_async"], kani=["keys"], replay=["ttl", "async_sweep", "cache", "async_cache"]),
-    "C06": dict(units=["u7_glue", "u6_store", "u4_policy", "u19_async", "u19_async_policy"], kani=[], replay=["ttl", "async_sweep", "policy", "cache", "async_cache"]),
+    "C06": dict(units=["u7_glue", "u6_store", "u4_policy", "u19_async", "u19_async_policy"], kani=["keys"], replay=["ttl", "async_sweep", "policy", "cache", "async_cache"]),
     "C08": dict(units=["u7_glue", "u6_store", "u19_async", "u8_builder", "u8_builder_async"], kani=[], replay=["ttl", "async_sweep", "cache", "async_cache"]),
-    "C11": dict(units=["u7_glue", "u6_store", "u4_policy", "u1_estimator", "u19_async", "u19_async_policy", "u9_metrics"], kani=["histogram"], replay=["ttl", "async_sweep", "estimator", "cache", "async_cache", "policy"],
+    "C11": dict(units=["u7_glue", "u6_store", "u4_policy", "u1_estimator", "u19_async", "u19_async_policy", "u9_metrics", "u8_builder", "u8_builder_async"], kani=["histogram"], replay=["ttl", "async_sweep", "estimator", "cache", "async_cache", "policy"],
                 probes=[("cache", "insert_after_clear_is_kept")]),
-    "C15": dict(units=["u7_glue", "u1_estimator", "u8_builder", "u19_async", "u8_builder_async"], kani=[], replay=["estimator", "cache"]),
+    "C15": dict(units=["u7_glue", "u1_estimator", "u8_builder", "u19_async", "u8_builder_async", "u9_metrics"], kani=[], replay=["estimator", "cache"]),
     "C16": dict(units=["u7_glue", "u4_policy", "u6_store", "u8_builder", "u19_async", "u19_async_policy", "u8_builder_async"], kani=[], replay=["policy", "ttl", "async_sweep", "cache", "async_cache"]),
     "C17": dict(units=["u7_glue", "u4_policy", "u8_builder", "u19_async", "u19_async_policy", "u9_metrics", "u8_builder_async"], kani=["histogram"], replay=["policy", "cache", "async_cache"]),
     "C19": dict(units=["u19_async", "u19_async_policy", "u6_store", "u8_builder_async"], kani=[], replay=["async_cache", "ttl", "async_sweep"]),
